@@ -1,7 +1,7 @@
 SPECIFICATION Spec
 CONSTANTS
   NBatches = 3
-  MaxCalls = 3
+  MaxCalls = 2
   Guarded <- AllKinds
 INVARIANT ExitClean
 PROPERTY StartsClean
